@@ -29,9 +29,18 @@ for f in sorted(glob.glob(V + '/evidence/C??.json')):
         for r in expl.split('Rules: ', 1)[1].split(' | '):
             inv.append('* ' + r.strip())
     inv.append('')
+brows=[]
+nb=0
+for d in sorted(glob.glob(V + '/benign/*/meta.json')):
+    m=json.load(open(d)); nb+=1
+    summ=(m.get('summary') or '').replace('|','/').replace('\n',' ')
+    if len(summ)>200: summ=summ[:197]+'...'
+    brows.append(f"| {m['id']} | {m.get('kind','')} | {', '.join(m.get('files') or [])} | {summ} |")
+benign=(f"{nb} refactorings, all silent on the committed rules.\n\n| id | kind | files | summary (author's) |\n|---|---|---|---|\n"+'\n'.join(brows))
 p = V + '/DESIGN.md'
 s = open(p).read()
 s = region(s, 'seeded', seeded)
 s = region(s, 'rules', '\n'.join(inv))
+s = region(s, 'benign', benign)
 open(p, 'w').write(s)
 print('seeded rows', tot, 'own', own)
